@@ -100,6 +100,10 @@ CHECKS = {
                 text="31-operation alphabet over 3 devices x 2 interfaces x 2 message variants: unmerged tree of copied real Status objects to depth 4 (quick) / 5 (thorough), every prefix judged, plus BFS merged on the full ordered observable state to depth 9 / 12; after every operation counts, lookups by id and every getter/byte of every stored packet are compared with a latest-message map.",
                 note="Vector order is not constrained; 'random beyond the bound' is not done (the completed bound is reported).",
                 technique="explicit-state model checking (operation-sequence tree + BFS with state merging) of the real object against a reference model"),
+    "C20": dict(level="model_checking", design="4/C20",
+                text="Uninitialised memory is treated as an environment answer the harness owns: a deterministic list of ~1800 workloads (encoder, round trips, decoder on independently built frames incl. cuts/padding, reassembly, TECMP conversion, builders x prior contents, serialised default headers/packets, status tracker) is executed under two environments that differ in every fresh stack byte (-ftrivial-auto-var-init=zero vs =pattern) and heap byte (MALLOC_PERTURB_ + heap churn); all output digests must agree; the list (quick: one workload per output shape, thorough: all) also runs under valgrind memcheck with a definedness check on every output buffer, which also reports decisions on uninitialised values.",
+                note="Two fill patterns decide dependence on uninitialised content; valgrind decides definedness on the executed paths only. MSan is unusable here without an instrumented libstdc++.",
+                technique="exhaustive enumeration of a workload list x environment answers for uninitialised memory (differential) + definedness monitor on every output"),
 }
 
 PENDING_REASON = "check under construction (see DESIGN.md section 4); will be claimed once its engine is committed"
